@@ -115,6 +115,23 @@ CATALOGUE = [
      "            # build a PDU with the source from the real source\n            xpdu = PDU(pdu.pduData, source=pdu.pduSource, destination=LocalBroadcast(), user_data=pdu.pduUserData)\n#           if route_aware:\n#               xpdu.pduSource.pduRoute = pdu.pduSource"),
     ('C13', 'delete-fdt-entry-noop', 'bacpypes/bvllservice.py', "            if addr == self.bbmdFDT[i].fdAddress:\n                del self.bbmdFDT[i]\n                break", "            if addr == self.bbmdFDT[i].fdAddress:\n                break", 2),
     ('C13', 'fd-reregister-broken-again', 'bacpypes/bvllservice.py', "        # no ack yet, this might follow a call to unregister()\n        self.registrationStatus = -1\n", ""),
+    # ---- C15
+    ('C15', 'assign-before-validate', 'bacpypes/object.py', "        if direct:\n            if _debug: Property._debug(\"    - direct write\")\n        else:",
+     "        if not direct and arrayIndex is None:\n            obj._values[self.identifier] = value\n        if direct:\n            if _debug: Property._debug(\"    - direct write\")\n        else:"),
+    ('C15', 'skip-mutability-check', 'bacpypes/object.py', "            if not self.mutable:\n                if _debug: Property._debug(\"    - property is immutable\")\n                raise ExecutionError(errorClass='property', errorCode='writeAccessDenied')",
+     "            if False:\n                raise ExecutionError(errorClass='property', errorCode='writeAccessDenied')"),
+    ('C15', 'array-element-off-by-one', 'bacpypes/constructeddata.py', "                raise IndexError(\"index out of range\")\n\n            return self.value[item]",
+     "                raise IndexError(\"index out of range\")\n\n            return self.value[item - 1 if item > 1 else item]"),
+    ('C15', 'array-index-n-plus-1-returns-array', 'bacpypes/object.py', "                except IndexError:\n                    raise ExecutionError(errorClass='property', errorCode='invalidArrayIndex')\n\n        # all set\n        return value",
+     "                except IndexError:\n                    pass\n\n        # all set\n        return value"),
+    ('C15', 'rpm-required-optional-swapped', 'bacpypes/service/object.py', "                            elif (propertyIdentifier == 'required') and (prop.optional):", "                            elif (propertyIdentifier == 'required') and (not prop.optional):"),
+    ('C15', 'rpm-ignores-array-index', 'bacpypes/service/object.py', "    value = obj.ReadProperty(propertyIdentifier, propertyArrayIndex)\n    if _debug: read_property_to_any._debug",
+     "    value = obj.ReadProperty(propertyIdentifier, None)\n    propertyArrayIndex = None\n    if _debug: read_property_to_any._debug"),
+    ('C15', 'unknown-object-acked-on-write', 'bacpypes/service/object.py', "        if _debug: ReadWritePropertyServices._debug(\"    - object: %r\", obj)\n        if not obj:\n            raise ExecutionError(errorClass='object', errorCode='unknownObject')\n\n        try:\n            # check if the property exists",
+     "        if _debug: ReadWritePropertyServices._debug(\"    - object: %r\", obj)\n        if not obj:\n            self.response(SimpleAckPDU(context=apdu))\n            return\n\n        try:\n            # check if the property exists"),
+    ('C15', 'element-write-lost', 'bacpypes/constructeddata.py', "            else:\n                self.value[item] = value\n\n        def __delitem__", "            else:\n                pass\n\n        def __delitem__"),
+    ('C15', 'wrong-error-code-readonly', 'bacpypes/object.py', "                raise ExecutionError(errorClass='property', errorCode='writeAccessDenied')\n\n            # if changing the length of the array",
+     "                raise ExecutionError(errorClass='property', errorCode='valueOutOfRange')\n\n            # if changing the length of the array"),
     # ---- C12
     ('C12', 'window-max-instead-of-min', 'bacpypes/appservice.py', "        self.actualWindowSize = min(apdu.apduWin, self.ssmSAP.proposedWindowSize)\n        if _debug: ServerSSM._debug(",
      "        self.actualWindowSize = max(apdu.apduWin, self.ssmSAP.proposedWindowSize)\n        if _debug: ServerSSM._debug("),
